@@ -690,12 +690,27 @@ fn test_components() {
 }
 
 /// 散列化「无序不重复词项容器」
-/// * ⚠️潜在假设：集合相同⇒遍历顺序相同⇒散列化顺序相同⇒散列化结果相同
+/// * 🚩结果与遍历顺序无关：判等时集合无序，故散列化亦须无序
+///   * 否则「内容相同但遍历顺序不同」的两个集合散列值不同，
+///     嵌套时外层集合的判等（按散列值查找元素）也会随之出错
 fn hash_term_set<H: std::hash::Hasher>(set: &TermSetType, state: &mut H) {
-    // 逐个元素散列化
-    for term in set {
-        term.hash(state)
+    hash_terms_unordered(set.iter(), state)
+}
+
+/// 无序地散列化一系列词项
+/// * 🚩各词项先用固定的散列器独立散列，再以（可交换的）加法合并
+fn hash_terms_unordered<'a, H: std::hash::Hasher>(
+    terms: impl Iterator<Item = &'a Term>,
+    state: &mut H,
+) {
+    use std::hash::Hasher;
+    let mut sum: u64 = 0;
+    for term in terms {
+        let mut hasher = std::collections::hash_map::DefaultHasher::new();
+        term.hash(&mut hasher);
+        sum = sum.wrapping_add(hasher.finish());
     }
+    state.write_u64(sum);
 }
 
 /// 实现/散列化逻辑
@@ -754,16 +769,17 @@ impl Hash for Term {
             ConjunctionParallel(set) => hash_term_set(set, state),
             // 陈述
             Inheritance(t1, t2)
-            | Similarity(t1, t2)
             | Implication(t1, t2)
-            | Equivalence(t1, t2)
             | ImplicationPredictive(t1, t2)
             | ImplicationConcurrent(t1, t2)
             | ImplicationRetrospective(t1, t2)
-            | EquivalencePredictive(t1, t2)
-            | EquivalenceConcurrent(t1, t2) => {
+            | EquivalencePredictive(t1, t2) => {
                 t1.hash(state);
                 t2.hash(state);
+            }
+            // 对称陈述：判等时主谓项可互换，故散列化亦须与顺序无关
+            Similarity(t1, t2) | Equivalence(t1, t2) | EquivalenceConcurrent(t1, t2) => {
+                hash_terms_unordered([&**t1, &**t2].into_iter(), state)
             }
         }
     }
